@@ -112,6 +112,8 @@ def run_check(chk: PropertyCheck, tier: str) -> int:
     rep = Report(chk.pid, tier, seed, chk.level)
     rep.assumptions = list(chk.assumptions)
     rep.cov["rule"] = chk.rule
+    if chk.level == "other":
+        rep.cov["explanation"] = getattr(chk, "explanation", chk.rule)
     rep.cov["trusted_base"] = list(TRUSTED_BASE_COMMON)
     rep.cov["checker_cmd"] = f"cd /verif/coq && make props/{chk.pid}.vo  (coqc 8.16.1, full .vo)"
     rep.cov["repo_head"] = common.git_head(common.REPO)
